@@ -465,16 +465,28 @@ def openTcbInfo (L : Lib) (teeType : Nat) (ts : Time) (pol : Policy) (pk : Bytes
         chk (!(pol.blacklist.contains ti.fmspc)) .tcbBlacklist
         .ok ti
 
-/-- `TCBLevel.matches` (tcb.go:453-495). -/
+/-- One SVN loop of `TCBLevel.matches` over Go's 16-element arrays, as written
+(tcb.go:459-464 and 484-489): `for i, comp := range comps[off:] { if svn[off+i] < comp.SVN
+{ return false } }`. `i` is the absolute index, `n` the number of elements still to visit; the
+loop leaves at the FIRST lower SVN. Arrays are total (`getD _ 0`: a JSON array shorter than 16
+leaves zeros, as Go's fixed-size arrays do). -/
+def svnLoop (plat lvl : List Int) : Nat → Nat → Bool
+  | _, 0 => true
+  | i, n + 1 => if plat.getD i 0 < lvl.getD i 0 then false else svnLoop plat lvl (i + 1) n
+
+/-- The offset rule of step c) (tcb.go:480-483): `var offset int; if tdxCompSvn[1] != 0
+{ offset = 2 }`. -/
+def tdxOffset (t : List Nat) : Nat := if t.getD 1 0 != 0 then 2 else 0
+
+/-- `TCBLevel.matches` (tcb.go:453-495), statement by statement: a) the 16 SGX component SVNs,
+b) PCESVN, c) for TDX the TEE TCB SVNs from `offset` to 15. -/
 def TcbLevel.matches (l : TcbLevel) (sgxSvn : List Int) (tdxSvn : Option (List Nat))
     (pcesvn : Nat) : Bool :=
-  (sgxSvn.zip l.sgx).all (fun p => !(decide (p.1 < p.2)))
-  && !(decide (pcesvn < l.pcesvn))
-  && (match tdxSvn with
-      | none => true
-      | some t =>
-        let off := if t.getD 1 0 ≠ 0 then 2 else 0
-        ((t.drop off).zip (l.tdx.drop off)).all (fun p => !(decide ((p.1 : Int) < p.2))))
+  if !(svnLoop sgxSvn l.sgx 0 16) then false
+  else if pcesvn < l.pcesvn then false
+  else match tdxSvn with
+    | none => true
+    | some t => svnLoop (t.map Int.ofNat) l.tdx (tdxOffset t) (16 - tdxOffset t)
 
 def digit (n : Nat) : UInt8 := UInt8.ofNat (48 + n % 10)
 
@@ -601,10 +613,15 @@ structure QPolicy where
   pcs : Option Policy
   deriving DecidableEq, Repr
 
-/-- `TEEFeaturesSGX`: the PCS feature flag and the consensus default policy. -/
+/-- `TEEFeaturesSGX`: the PCS feature flag, the consensus default policy, the signed-attestation
+feature flag and the default maximum attestation age (in blocks). -/
 structure Features where
   pcs : Bool
   defaultPolicy : Option QPolicy
+  signedAttestations : Bool := false
+  defaultMaxAge : Nat := 0
+  /-- `TDX`: feature flag, TDX policies are accepted in runtime descriptors. -/
+  tdx : Bool := false
   deriving DecidableEq, Repr
 
 /-- `ApplyDefaultConstraints` on the descriptor's `SGXConstraints.Policy` (`none` = nil pointer,
@@ -633,5 +650,78 @@ def descriptorSetsPcs (sc : Option QPolicy) : Bool :=
 def registrationOK (L : Lib) (env : Env) (fs : Features) (sc : Option QPolicy) (ts : Time)
     (q : Quote) (tcb : Option Bundle) (allowed : List (Bytes × Bytes)) (rakHash : Bytes) : Bool :=
   attestationOK L env (effectivePcsPolicy fs sc) ts q tcb allowed rakHash
+
+/-! ### descriptor validation (go/common/node/sgx.go:99-128, go/common/sgx/quote/quote.go:62-76) -/
+
+/-- `quote.Policy.Validate`: before feature version 26.1 the FMSPC white list must be empty. -/
+def QPolicy.validate (p : QPolicy) (is261 : Bool) : Bool :=
+  if is261 then true
+  else match p.pcs with
+    | none => true
+    | some x => x.whitelist.isEmpty
+
+/-- `SGXConstraints.ValidateBasic` (with a non-nil feature set): structure version `v`, the
+descriptor's policy. `true` = `nil` error. -/
+def constraintsValidateBasic (fs : Features) (is261 : Bool) (v : Nat) (policy : Option QPolicy) :
+    Bool :=
+  if !fs.pcs && v != 0 then false
+  else if v > 1 then false
+  else match policy with
+    | none => true
+    | some p =>
+      if !fs.tdx && (match p.pcs with
+                     | some x => x.tdx.isSome
+                     | none => false) then false
+      else p.validate is261
+
+/-! ### signed attestations (go/common/node/sgx.go:247-283, tee.go:53-56) -/
+
+/-- What `HashAttestation` hashes: TupleHash[AttestationSignatureContext](reportData, nodeID,
+height, *rek). Kept as the tuple; the RAK signature check is an oracle on it. -/
+structure AttMsg where
+  reportData : Bytes
+  nodeId : Bytes
+  height : Nat
+  rek : Option Bytes
+  deriving DecidableEq, Repr
+
+/-- The fields of `SGXAttestation` next to the quote. -/
+structure SignedAtt where
+  height : Nat
+  sig : Bytes
+  deriving DecidableEq, Repr
+
+/-- Outcome of `SGXAttestation.Verify`, one constructor per `return`. -/
+inductive AttResult
+  | ok | quote | identity | rak | sig | future | stale
+  deriving DecidableEq, Repr
+
+def AttResult.name : AttResult → String
+  | .ok => "ok" | .quote => "quote" | .identity => "identity" | .rak => "rak"
+  | .sig => "sig" | .future => "future" | .stale => "stale"
+
+/-- Second step of `ApplyDefaultConstraints`: `if sc.MaxAttestationAge == 0 { sc.MaxAttestationAge
+= fs.DefaultMaxAttestationAge }`. -/
+def effectiveMaxAge (fs : Features) (scMaxAge : Nat) : Nat :=
+  if scMaxAge == 0 then fs.defaultMaxAge else scMaxAge
+
+/-- `SGXAttestation.Verify` in full: policy resolution, quote verification, allowed enclave
+identity, RAK binding, and with `SignedAttestations` the RAK signature over
+(verified report data, node id, attestation height, REK) and the freshness window
+`sa.Height ≤ height ∧ height - sa.Height ≤ MaxAttestationAge`. -/
+def attestationVerify (L : Lib) (rakVerify : Bytes → AttMsg → Bytes → Bool) (env : Env)
+    (fs : Features) (sc : Option QPolicy) (scMaxAge : Nat) (ts : Time) (now : Nat) (q : Quote)
+    (tcb : Option Bundle) (allowed : List (Bytes × Bytes)) (rak rakHash : Bytes)
+    (rek : Option Bytes) (nodeId : Bytes) (sa : SignedAtt) : AttResult :=
+  match verify L env (effectivePcsPolicy fs sc) ts q tcb with
+  | .error _ => .quote
+  | .ok v =>
+    if !(allowed.contains (v.mrEnclave, v.mrSigner)) then .identity
+    else if slice v.reportData 0 32 != rakHash then .rak
+    else if !fs.signedAttestations then .ok
+    else if !(rakVerify rak ⟨v.reportData, nodeId, sa.height, rek⟩ sa.sig) then .sig
+    else if sa.height > now then .future
+    else if now - sa.height > effectiveMaxAge fs scMaxAge then .stale
+    else .ok
 
 end OasisModel.Pcs
